@@ -140,6 +140,26 @@ func hSkeleton(id, form, errMode int) *hWorld {
 		conv(2, []hLabel{{T: hTP0}}, []hLabel{{T: hTP1}})
 		w.Convs[1].Form = w.Convs[0].Form
 		val(hLabel{T: hTP0})
+	case 9:
+		// like skeleton 0 with NAMED subtyped values: same name and type, different subtypes,
+		// one of them only needed by a multi-input converter that is entered through its other input
+		target(hLabel{T: hTP3})
+		conv(1, []hLabel{{Name: "m", T: hTP1}, {Name: "a", T: hTP0, Sub: sub("s1")}}, []hLabel{{T: hTP3}})
+		conv(2, []hLabel{{Name: "a", T: hTP0, Sub: sub("s2")}}, []hLabel{{Name: "m", T: hTP1}})
+		conv(3, nil, []hLabel{{Name: "a", T: hTP0, Sub: sub("s3")}})
+		val(hLabel{Name: "a", T: hTP0, Sub: sub("s4")})
+	case 8:
+		// a named value converted to the same name and type with a subtype, the plain named
+		// value itself produced by another converter: name-discounted edges form a loop of
+		// negative total weight (a/T -> conv -> a/T/s -> a/T)
+		st := subs[1+vnChoice("loopsub", 2)]
+		target(hLabel{Name: "a", T: hTP0, Sub: st})
+		conv(1, []hLabel{{Name: "a", T: hTP0}}, []hLabel{{Name: "a", T: hTP0, Sub: st}})
+		conv(2, []hLabel{{T: hTP1}}, []hLabel{{Name: "a", T: hTP0}})
+		val(hLabel{T: hTP1})
+		if vnBool("withDirect") {
+			val(hLabel{Name: "a", T: hTP0, Sub: sub("ds")})
+		}
 	default:
 		vnAssume(false)
 	}
